@@ -128,7 +128,8 @@ impl History {
         let mut first_error: Option<Violation> = None;
         let mut best_o = 0usize;
         let found = self.search(&frames, 0, 0, drained, expected, &mut parse, &mut failed, &mut attempts, &mut first_error, &mut best_o);
-        if found {
+        if found || attempts > 256 {
+            // more than 256 candidate explanations (streams with many identical frames): inconclusive
             return Ok(());
         }
         if let Some(err) = first_error {
@@ -154,6 +155,10 @@ impl History {
         ))
     }
 
+    /// Depth first search over the ways to explain the output. Returns true when an
+    /// explanation passes `check`. `structural` is set when at least one complete explanation
+    /// exists below this state; only states without any are memoised as failed (whether
+    /// `check` passes depends on the frames dropped on the way here, not just on the state).
     #[allow(clippy::too_many_arguments)]
     fn search(
         &self,
@@ -168,23 +173,47 @@ impl History {
         first_error: &mut Option<Violation>,
         best_o: &mut usize,
     ) -> bool {
+        let mut structural = false;
+        self.search_inner(frames, i, o, drained, expected, parse, failed, attempts, first_error, best_o, &mut structural)
+    }
+
+    #[allow(clippy::too_many_arguments)]
+    fn search_inner(
+        &self,
+        frames: &[(u32, usize, usize)],
+        i: usize,
+        o: usize,
+        drained: bool,
+        expected: &dyn Fn(u64) -> u8,
+        parse: &mut Parse,
+        failed: &mut std::collections::HashSet<(usize, usize)>,
+        attempts: &mut usize,
+        first_error: &mut Option<Violation>,
+        best_o: &mut usize,
+        structural: &mut bool,
+    ) -> bool {
         *best_o = (*best_o).max(o);
-        if i == frames.len() {
-            if o != self.out.len() {
-                return false;
-            }
+        let mut complete = |parse: &Parse, drained: bool, attempts: &mut usize, first_error: &mut Option<Violation>, structural: &mut bool| -> bool {
             *attempts += 1;
-            return match self.check(frames, parse, drained) {
+            *structural = true;
+            match self.check(frames, parse, drained) {
                 Ok(()) => true,
                 Err(err) => {
                     first_error.get_or_insert(err);
                     false
                 }
-            };
+            }
+        };
+        if i == frames.len() {
+            if o != self.out.len() {
+                return false;
+            }
+            return complete(parse, drained, attempts, first_error, structural);
         }
-        if *attempts > 64 || failed.contains(&(i, o)) {
+        if *attempts > 256 || failed.contains(&(i, o)) {
             return false;
         }
+        let mut any_structural = false;
         let (_, start, end) = frames[i];
         let len = end - start;
         // option 1: frame came out (completely; or as a prefix when output ends and queue is not drained)
@@ -192,40 +221,43 @@ impl History {
         let take = len.min(avail);
         let matches = (0..take).all(|k| self.out[o + k] == expected((start + k) as u64));
         if matches && take == len {
-            if self.search(frames, i + 1, o + len, drained, expected, parse, failed, attempts, first_error, best_o) {
+            let mut sub = false;
+            if self.search_inner(frames, i + 1, o + len, drained, expected, parse, failed, attempts, first_error, best_o, &mut sub) {
                 return true;
             }
+            any_structural |= sub;
         } else if matches && !drained && o + take == self.out.len() {
             // partially transmitted front frame, rest is still queued
-            *attempts += 1;
-            match self.check(frames, parse, false) {
-                Ok(()) => return true,
-                Err(err) => {
-                    first_error.get_or_insert(err);
-                }
+            let mut sub = false;
+            if complete(parse, false, attempts, first_error, &mut sub) {
+                return true;
             }
+            any_structural |= sub;
         } else if matches {
             *best_o = (*best_o).max(o + take);
         }
         // option 2: frame was dropped as a whole
         if !(o == self.out.len() && !drained) {
             parse.dropped.push((i, o));
-            let ok = self.search(frames, i + 1, o, drained, expected, parse, failed, attempts, first_error, best_o);
+            let mut sub = false;
+            let ok = self.search_inner(frames, i + 1, o, drained, expected, parse, failed, attempts, first_error, best_o, &mut sub);
             parse.dropped.pop();
             if ok {
                 return true;
             }
+            any_structural |= sub;
         } else {
             // output exhausted and queue not drained: remaining frames are simply still pending
-            *attempts += 1;
-            match self.check(frames, parse, false) {
-                Ok(()) => return true,
-                Err(err) => {
-                    first_error.get_or_insert(err);
-                }
+            let mut sub = false;
+            if complete(parse, false, attempts, first_error, &mut sub) {
+                return true;
             }
+            any_structural |= sub;
         }
-        failed.insert((i, o));
+        if !any_structural {
+            failed.insert((i, o));
+        }
+        *structural |= any_structural;
         false
     }
 
